@@ -249,7 +249,23 @@ func c27R2(c *engine.Ctx, p *poolFns) {
 					viaPredicate = true
 				}
 			}
-			c.Check((len(cut) == 2 || (viaPredicate && len(cut) == 1)) && everyPathPasses(a.fn, st, cut, nil), "C27.R2", key+"/guarded-by-limit", st.Pos(), "every path to total++ must pass the true edge of max < 1 or total < max (limit edges found: %d)", len(cut))
+			if len(cut) < 2 {
+				// the disjunction may be kept in a local (canCreate := max < 1 || total < max;
+				// if canCreate): the true edge of a test of a value that can only be
+				// true through the two comparisons counts as a limit edge
+				for e := range engine.EdgesWhere(a.fn, func(cm engine.Cmp) bool {
+					b, isB := engine.ConstBool(cm.Y)
+					phi, isPhi := engine.Unwrap(cm.X).(*ssa.Phi)
+					if !isPhi || !isB || !((b && cm.Op == token.EQL) || (!b && cm.Op == token.NEQ)) {
+						return false
+					}
+					return limitValue(a.fn, phi, phi.Block().Instrs[len(phi.Block().Instrs)-1], isLimit)
+				}) {
+					cut[e] = true
+					viaPredicate = true
+				}
+			}
+			c.Check((len(cut) == 2 || (viaPredicate && len(cut) >= 1)) && everyPathPasses(a.fn, st, cut, nil), "C27.R2", key+"/guarded-by-limit", st.Pos(), "every path to total++ must pass the true edge of max < 1 or total < max (limit edges found: %d)", len(cut))
 			// same critical section: the lock is held at the limit tests and at the
 			// store, and no Unlock lies on a path from a limit edge to the store
 			sameCS := true
@@ -588,8 +604,21 @@ func c27R4(c *engine.Ctx, p *poolFns) {
 				origin = "hand-over"
 			}
 			isConn = func(x ssa.Value) bool { return engine.Unwrap(x) == ssa.Value(ex) }
+			// handed back by a withdraw helper that polled the request channel
+			for _, hc := range c28WithdrawHelpers(p) {
+				if c28HelperConn(hc)(v) && c28HelperPolls(hc) {
+					origin = "hand-over"
+				}
+			}
 		} else if call, ok := v.(*ssa.Call); ok && call.Common().StaticCallee() == p.create {
 			continue // fresh connection: its readiness/death is selected on right there
+		} else if ok {
+			for _, hc := range c28WithdrawHelpers(p) {
+				if hc.call == call && hc.h.Signature.Results().Len() == 1 && c28HelperPolls(hc) {
+					origin = "hand-over"
+					isConn = func(x ssa.Value) bool { return engine.Unwrap(x) == ssa.Value(call) }
+				}
+			}
 		}
 		if origin == "" {
 			c.Undecided("C27.R4", "acquire/return#"+ordinal(p.acquire, r), r.Pos(), "returned connection of unrecognised origin %s", engine.Describe(v))
@@ -730,13 +759,184 @@ func c28R2(c *engine.Ctx, p *poolFns) {
 		ex, ok := engine.Unwrap(v).(*ssa.Extract)
 		return ok && ex.Tuple == ssa.Value(reqCall) && ex.Index == 1
 	}
-	als := engine.Locksets(p.acquire)
+	// the give-up (withdraw the request, poll its channel) may live in a helper of
+	// acquire that receives the key and the channel: the same rules are then
+	// applied inside the helper, with its parameters in the roles of key and channel
+	scopes := []c28Scope{{fn: p.acquire, tag: "acquire", isKey: isKey, isCh: isCh}}
+	helperCalls := c28WithdrawHelpers(p)
+	seenHelper := map[*ssa.Function]bool{}
+	for _, hc := range helperCalls {
+		n++
+		if seenHelper[hc.h] {
+			continue
+		}
+		seenHelper[hc.h] = true
+		kp, cp := ssa.Value(hc.h.Params[hc.keyIdx]), ssa.Value(hc.h.Params[hc.chIdx])
+		scopes = append(scopes, c28Scope{fn: hc.h, tag: hc.h.Name(),
+			isKey: func(v ssa.Value) bool { return engine.Unwrap(v) == kp },
+			isCh:  func(v ssa.Value) bool { return engine.Unwrap(v) == cp }})
+	}
+	for _, sc := range scopes {
+		n += c28GiveUps(c, p, sc, sendLocked, delLocked)
+	}
+	c.Floor("C28.R2", 2, n)
+	n3 := 0
+	for _, sc := range scopes {
+		n3 += c28Received(c, p, sc)
+	}
+	for _, hc := range helperCalls {
+		n3++
+		c28HelperResultKept(c, p, hc)
+	}
+	n3 += c28WaiterCover(c, p, isCh)
+	c.Floor("C28.R3", 4, n3)
+}
+
+type c28Scope struct {
+	fn          *ssa.Function
+	tag         string
+	isKey, isCh func(ssa.Value) bool
+}
+
+type c28HelperCall struct {
+	call           *ssa.Call
+	h              *ssa.Function
+	keyIdx, chIdx  int
+}
+
+// c28WithdrawHelpers: calls in acquire of a pool function (not one of the known
+// ones) that receives both the request key and the request channel.
+func c28WithdrawHelpers(p *poolFns) []c28HelperCall {
+	var reqCall *ssa.Call
 	for _, call := range engine.Calls(p.acquire) {
+		if call.Common().StaticCallee() == p.request {
+			reqCall, _ = call.(*ssa.Call)
+		}
+	}
+	if reqCall == nil {
+		return nil
+	}
+	var out []c28HelperCall
+	for _, ci := range engine.Calls(p.acquire) {
+		call, ok := ci.(*ssa.Call)
+		h := ci.Common().StaticCallee()
+		if !ok || h == nil || len(h.Blocks) == 0 || h == p.rdelete || h == p.request || h == p.transfer || h == p.release {
+			continue
+		}
+		ki, chi := -1, -1
+		for i, a := range engine.Args(ci.Common()) {
+			if ex, isE := engine.Unwrap(a).(*ssa.Extract); isE && ex.Tuple == ssa.Value(reqCall) {
+				if ex.Index == 0 {
+					ki = i
+				} else if ex.Index == 1 {
+					chi = i
+				}
+			}
+		}
+		if ki >= 0 && chi >= 0 && ki < len(h.Params) && chi < len(h.Params) {
+			out = append(out, c28HelperCall{call: call, h: h, keyIdx: ki, chIdx: chi})
+		}
+	}
+	return out
+}
+
+// c28HelperConn: the connection a withdraw helper hands back (its first result).
+func c28HelperConn(hc c28HelperCall) func(ssa.Value) bool {
+	return func(v ssa.Value) bool {
+		v = engine.Unwrap(v)
+		if hc.h.Signature.Results().Len() == 1 {
+			return v == ssa.Value(hc.call)
+		}
+		ex, ok := v.(*ssa.Extract)
+		return ok && ex.Tuple == ssa.Value(hc.call) && ex.Index == 0
+	}
+}
+
+// c28HelperPolls: every connection the helper hands back is nil or was received
+// from its channel parameter.
+func c28HelperPolls(hc c28HelperCall) bool {
+	ch := ssa.Value(hc.h.Params[hc.chIdx])
+	rets := engine.Returns(hc.h)
+	for _, r := range rets {
+		for _, l := range engine.Leaves(engine.RetVal(r, 0)) {
+			l = engine.Unwrap(l)
+			if engine.IsNil(l) {
+				continue
+			}
+			ex, ok := l.(*ssa.Extract)
+			sel, isS := (ssa.Value)(nil), false
+			if ok {
+				_, isS = ex.Tuple.(*ssa.Select)
+				sel = ex.Tuple
+			}
+			if !ok || !isS || ex.Index < 2 {
+				return false
+			}
+			from := false
+			for _, sc := range engine.SelectCases(sel.(*ssa.Select)) {
+				if !sc.Send && engine.Unwrap(sc.Chan) == ch {
+					from = true
+				}
+			}
+			if !from {
+				return false
+			}
+		}
+	}
+	return len(rets) > 0
+}
+
+// c28HelperResultKept: the connection handed back by a withdraw helper is
+// returned or released on every path of acquire, except on edges where it is
+// known to be nil or the helper's bool result is false.
+func c28HelperResultKept(c *engine.Ctx, p *poolFns, hc c28HelperCall) {
+	isGot := c28HelperConn(hc)
+	cut := engine.EdgesWhere(p.acquire, func(cm engine.Cmp) bool {
+		if isGot(cm.X) && engine.IsNil(cm.Y) && cm.Op == token.EQL {
+			return true
+		}
+		if ex, ok := engine.Unwrap(cm.X).(*ssa.Extract); ok && ex.Tuple == ssa.Value(hc.call) && ex.Index == 1 {
+			b, isB := engine.ConstBool(cm.Y)
+			return isB && ((!b && cm.Op == token.EQL) || (b && cm.Op == token.NEQ))
+		}
+		return false
+	})
+	used := func(i ssa.Instruction) bool {
+		if r, ok := i.(*ssa.Return); ok {
+			return isGot(engine.RetVal(r, 0))
+		}
+		if ci, ok := i.(ssa.CallInstruction); ok && ci.Common().StaticCallee() == p.release {
+			return isGot(engine.Args(ci.Common())[1])
+		}
+		return false
+	}
+	dropped := false
+	for _, r := range engine.Returns(p.acquire) {
+		if isGot(engine.RetVal(r, 0)) {
+			continue
+		}
+		if (engine.PathQuery{Fn: p.acquire, From: hc.call, Cut: cut, Barrier: used}).Reaches(r) {
+			dropped = true
+		}
+	}
+	for _, lk := range engine.CallsTo(p.acquire, false, "(*sync.Mutex).Lock") {
+		if (engine.PathQuery{Fn: p.acquire, From: hc.call, Cut: cut, Barrier: used}).Reaches(lk) {
+			dropped = true
+		}
+	}
+	c.Check(!dropped, "C28.R3", "acquire/"+hc.h.Name()+"#"+ordinalCall(p.acquire, hc.call)+"/received-connection-kept", hc.call.Pos(), "a connection handed back by %s must be returned or released on every path, never dropped", hc.h.Name())
+}
+
+func c28GiveUps(c *engine.Ctx, p *poolFns, sc c28Scope, sendLocked, delLocked bool) int {
+	n := 0
+	isKey, isCh := sc.isKey, sc.isCh
+	als := engine.Locksets(sc.fn)
+	for _, call := range engine.Calls(sc.fn) {
 		if call.Common().StaticCallee() != p.rdelete {
 			continue
 		}
 		n++
-		key := "acquire/give-up#" + ordinalCall(p.acquire, call)
+		key := sc.tag + "/give-up#" + ordinalCall(sc.fn, call)
 		c.Check(isKey(engine.Args(call.Common())[1]), "C28.R2", key+"/deletes-own-key", call.Pos(), "the waiter must withdraw the request it registered")
 		// every path from the delete to an exit or to the retry passes a poll of ch
 		isPoll := func(i ssa.Instruction) bool {
@@ -752,13 +952,13 @@ func c28R2(c *engine.Ctx, p *poolFns) {
 			return false
 		}
 		missed := false
-		for _, r := range engine.Returns(p.acquire) {
-			if (engine.PathQuery{Fn: p.acquire, From: call, Barrier: isPoll}).Reaches(r) {
+		for _, r := range engine.Returns(sc.fn) {
+			if (engine.PathQuery{Fn: sc.fn, From: call, Barrier: isPoll}).Reaches(r) {
 				missed = true
 			}
 		}
-		for _, lk := range engine.CallsTo(p.acquire, false, "(*sync.Mutex).Lock") {
-			if (engine.PathQuery{Fn: p.acquire, From: call, Barrier: isPoll}).Reaches(lk) {
+		for _, lk := range engine.CallsTo(sc.fn, false, "(*sync.Mutex).Lock") {
+			if (engine.PathQuery{Fn: sc.fn, From: call, Barrier: isPoll}).Reaches(lk) {
 				missed = true
 			}
 		}
@@ -766,11 +966,15 @@ func c28R2(c *engine.Ctx, p *poolFns) {
 		atomicOK := (sendLocked && delLocked) || als[call]["p:c.mu"]
 		c.Check(atomicOK, "C28.R2", key+"/atomic-with-transfer", call.Pos(), "a transfer in flight must not be missed: either reqMap.transfer sends while holding the mutex reqMap.delete takes (send under r.mux: %v, delete under r.mux: %v), or the give-up runs under DC.mu (held: %v)", sendLocked, delLocked, keys(als[call]))
 	}
-	c.Floor("C28.R2", 2, n)
+	return n
+}
 
-	// R3: polled connection is returned or released; waiter select cover
+// c28Received (R3): a connection polled from the hand-over channel is returned
+// or released on every path of the scope.
+func c28Received(c *engine.Ctx, p *poolFns, scope c28Scope) int {
 	n3 := 0
-	for _, sel := range selectsOf(p.acquire) {
+	isCh, fn := scope.isCh, scope.fn
+	for _, sel := range selectsOf(fn) {
 		for _, sc := range engine.SelectCases(sel) {
 			if sc.Send || !isCh(sc.Chan) || sc.Body == nil {
 				continue
@@ -783,7 +987,7 @@ func c28R2(c *engine.Ctx, p *poolFns) {
 			}
 			dropped := false
 			// edges on which the received value is known to be nil / channel closed are exempt
-			cut := engine.EdgesWhere(p.acquire, func(cm engine.Cmp) bool {
+			cut := engine.EdgesWhere(fn, func(cm engine.Cmp) bool {
 				if isGot(cm.X) && engine.IsNil(cm.Y) && cm.Op == token.EQL {
 					return true
 				}
@@ -793,6 +997,7 @@ func c28R2(c *engine.Ctx, p *poolFns) {
 				}
 				return false
 			})
+			handedBack := true
 			used := func(i ssa.Instruction) bool {
 				if r, ok := i.(*ssa.Return); ok {
 					return isGot(engine.RetVal(r, 0))
@@ -802,21 +1007,37 @@ func c28R2(c *engine.Ctx, p *poolFns) {
 				}
 				return false
 			}
-			for _, r := range engine.Returns(p.acquire) {
+			for _, r := range engine.Returns(fn) {
 				if isGot(engine.RetVal(r, 0)) {
+					// a helper that also returns a bool must say true with the connection
+					// (the caller drops the result on the false edge)
+					if fn != p.acquire && fn.Signature.Results().Len() == 2 {
+						if b, isB := engine.ConstBool(engine.RetVal(r, 1)); !isB || !b {
+							handedBack = false
+						}
+					}
 					continue
 				}
-				if (engine.PathQuery{Fn: p.acquire, FromBlk: sc.Body, Cut: cut, Barrier: used}).Reaches(r) {
+				if (engine.PathQuery{Fn: fn, FromBlk: sc.Body, Cut: cut, Barrier: used}).Reaches(r) {
 					dropped = true
 				}
 			}
-			for _, lk := range engine.CallsTo(p.acquire, false, "(*sync.Mutex).Lock") {
-				if (engine.PathQuery{Fn: p.acquire, FromBlk: sc.Body, Cut: cut, Barrier: used}).Reaches(lk) {
+			for _, lk := range engine.CallsTo(fn, false, "(*sync.Mutex).Lock") {
+				if (engine.PathQuery{Fn: fn, FromBlk: sc.Body, Cut: cut, Barrier: used}).Reaches(lk) {
 					dropped = true
 				}
 			}
-			c.Check(!dropped, "C28.R3", "acquire/select#"+ordinal(p.acquire, sel)+"/received-connection-kept", sel.Pos(), "a connection received from the hand-over channel must be returned or released on every path, never dropped")
+			c.Check(!dropped && handedBack, "C28.R3", scope.tag+"/select#"+ordinal(fn, sel)+"/received-connection-kept", sel.Pos(), "a connection received from the hand-over channel must be returned or released on every path, never dropped")
 		}
+	}
+	return n3
+}
+
+// c28WaiterCover (R3): the blocking wait of acquire also wakes on caller cancel,
+// DC close and a freed slot.
+func c28WaiterCover(c *engine.Ctx, p *poolFns, isCh func(ssa.Value) bool) int {
+	n3 := 0
+	for _, sel := range selectsOf(p.acquire) {
 		if sel.Blocking {
 			has := map[string]bool{}
 			for _, sc := range engine.SelectCases(sel) {
@@ -837,7 +1058,7 @@ func c28R2(c *engine.Ctx, p *poolFns) {
 			}
 		}
 	}
-	c.Floor("C28.R3", 4, n3)
+	return n3
 }
 
 func c28R4(c *engine.Ctx, p *poolFns) {
@@ -931,6 +1152,18 @@ func limitPredicate(h *ssa.Function, isLimit func(engine.Cmp) bool) bool {
 	if h == nil || len(h.Blocks) == 0 {
 		return false
 	}
+	rets := engine.Returns(h)
+	for _, r := range rets {
+		if len(r.Results) != 1 || !limitValue(h, r.Results[0], r, isLimit) {
+			return false
+		}
+	}
+	return len(rets) > 0
+}
+
+// limitValue: the bool value v of h, used at instruction at, can be true only
+// through the comparisons accepted by isLimit (see limitPredicate).
+func limitValue(h *ssa.Function, v ssa.Value, at ssa.Instruction, isLimit func(engine.Cmp) bool) bool {
 	cut := engine.EdgesWhere(h, isLimit)
 	var okVal func(v ssa.Value, at ssa.Instruction, d int) bool
 	okVal = func(v ssa.Value, at ssa.Instruction, d int) bool {
@@ -961,11 +1194,5 @@ func limitPredicate(h *ssa.Function, isLimit func(engine.Cmp) bool) bool {
 		}
 		return false
 	}
-	rets := engine.Returns(h)
-	for _, r := range rets {
-		if len(r.Results) != 1 || !okVal(r.Results[0], r, 0) {
-			return false
-		}
-	}
-	return len(rets) > 0
+	return okVal(v, at, 0)
 }
